@@ -78,14 +78,17 @@ CONCRETE = {
 
 
 def collect_apps(terms, seen_ids, out):
-    """Collect applications of theory functions in the term DAGs."""
+    """Collect applications of theory functions in the term DAGs.
+
+    ``seen_ids`` maps AST id -> term: the reference keeps the AST alive, so its
+    id cannot be recycled by z3 for a different term."""
     stack = list(terms)
     while stack:
         t = stack.pop()
         i = t.get_id()
         if i in seen_ids:
             continue
-        seen_ids.add(i)
+        seen_ids[i] = t
         if z3.is_app(t):
             d = t.decl()
             if d.kind() == z3.Z3_OP_UNINTERPRETED and t.num_args() > 0:
@@ -100,13 +103,13 @@ def collect_apps(terms, seen_ids, out):
 def _mentions_pi(t, cache):
     i = t.get_id()
     if i in cache:
-        return cache[i]
+        return cache[i][0]
     r = False
     if z3.is_const(t) and t.decl().kind() == z3.Z3_OP_UNINTERPRETED:
         r = t.decl().name() == "pi"
     else:
         r = any(_mentions_pi(c, cache) for c in t.children())
-    cache[i] = r
+    cache[i] = (r, t)  # keep t alive: ids of freed ASTs are recycled
     return r
 
 
@@ -140,8 +143,8 @@ class Instantiator:
     """Incremental axiom instantiation for the terms of one path / query."""
 
     def __init__(self, pairwise=True, structural=True):
-        self.seen_terms = set()
-        self.done_apps = {}  # id -> generation
+        self.seen_terms = {}  # id -> term (kept alive)
+        self.done_apps = {}  # id -> (generation, term)
         self.apps_by_fn = {}
         self.pi_added = False
         self.pairwise = pairwise
@@ -163,7 +166,7 @@ class Instantiator:
             a, g = work.pop()
             if a.get_id() in self.done_apps:
                 continue
-            self.done_apps[a.get_id()] = g
+            self.done_apps[a.get_id()] = (g, a)
             axs = self._axioms_for(a, g)
             fn = a.decl().name()
             if self.pairwise and g == 0:
